@@ -1,2 +1,263 @@
-From Verif Require Import Model.Chain.
-Example C03_placeholder : 1 = 1. Proof. reflexivity. Qed.
+(* Properties/C03.v — secret plaintext never reaches redacted output (non-interference).
+   Statements only; proofs in Proofs/NonInterference*.v, renderers in Model/Redact.v.
+
+   Relations (Proofs/NonInterferenceRel.v, NonInterferenceBuiltins.v, NonInterferenceEval.v):
+     lo_equiv v1 v2   exported values: same shape (incl. the kind of every scalar), same secret/unknown flags at every
+                      node, equal payload at every scalar that is neither flagged secret nor below a flagged node;
+     lo_strict v1 v2  the same, but only a scalar's OWN flag frees its payload (what evaluation results satisfy);
+     lo_l / lo_c      layers / chains: strict, and schemas equal;
+     srel s1 s2       states: memo and import tables related entry by entry, logs related up to the inputs passed
+                      to providers, equal [calls];   good s : nerr s = 0 /\ oof s = false;
+     mrel R m1 m2     from related states, if BOTH computations end in good states, the results are R-related
+                      and the final states are related;
+     W_lo W1 W2       worlds equal except: environments are related programs, PConst outputs lo_equiv,
+                      decrypters succeed on the same inputs (any plaintexts);
+     x_lo x1 x2       expressions equal except the texts of ESecretPlain; NO fn::fromJSON. *)
+From Verif Require Import Base.Bytes Model.Chain Model.GoText Model.Envelope Model.Eval Model.Redact.
+From Verif Require Import Proofs.NonInterferenceRel Proofs.NonInterferenceOps Proofs.NonInterferenceTwins
+     Proofs.NonInterferenceMono Proofs.NonInterferenceBuiltins Proofs.NonInterferenceEval
+     Proofs.NonInterferenceMain Proofs.NonInterferenceExamples.
+
+Notation lo_c := (Forall2 lo_l).
+
+(* ---------------- stage 1: the redacting renderers ---------------- *)
+Theorem C03_redact_json : forall v1 v2, lo_equiv v1 v2 -> x_redact_json v1 = x_redact_json v2.
+Proof. exact redact_lo_equiv. Qed.
+
+Theorem C03_redact_string : forall v1 v2, lo_equiv v1 v2 -> x_redact_string v1 = x_redact_string v2.
+Proof. exact redact_string_lo_equiv. Qed.
+
+Theorem C03_redact_env_vars : forall v1 v2, lo_strict v1 v2 -> env_vars_redacted v1 = env_vars_redacted v2.
+Proof. exact env_vars_redacted_lo_strict. Qed.
+
+Theorem C03_redact_temp_files : forall v1 v2, lo_strict v1 v2 -> temp_files_redacted v1 = temp_files_redacted v2.
+Proof. exact temp_files_redacted_lo_strict. Qed.
+
+Theorem C03_lo_strict_equiv : forall v1 v2, lo_strict v1 v2 -> lo_equiv v1 v2.
+Proof. exact lo_strict_equiv. Qed.
+
+(* GetEnvironmentVariables does not look at the flags of the `environmentVariables` object: lo_equiv is not enough *)
+Theorem C03_redact_env_vars_lo_equiv_refuted :
+  lo_equiv (ev_val "x") (ev_val "y") /\ env_vars_redacted (ev_val "x") <> env_vars_redacted (ev_val "y").
+Proof. exact env_vars_lo_equiv_refuted. Qed.
+
+(* ---------------- stage 2: value operations ---------------- *)
+Theorem C03_property : forall k c1 c2, lo_c c1 c2 -> lo_c (property k c1) (property k c2).
+Proof. exact property_lo. Qed.
+
+Theorem C03_keys : forall c1 c2, lo_c c1 c2 -> keys c1 = keys c2.
+Proof. exact keys_lo. Qed.
+
+Theorem C03_append : forall a1 a2 b1 b2, lo_c a1 a2 -> lo_c b1 b2 -> lo_c (a1 ++ b1) (a2 ++ b2).
+Proof. exact app_lo. Qed.
+
+Theorem C03_export : forall f c1 c2, lo_c c1 c2 -> opt_rel lo_strict (export f c1) (export f c2).
+Proof. exact export_lo. Qed.
+
+Theorem C03_contains_secrets : forall c1 c2, lo_c c1 c2 -> contains_secrets c1 = contains_secrets c2.
+Proof. exact contains_secrets_lo. Qed.
+
+Theorem C03_contains_unknowns : forall c1 c2, lo_c c1 c2 -> contains_unknowns c1 = contains_unknowns c2.
+Proof. exact contains_unknowns_lo. Qed.
+
+(* (s1,u1,sec1), (s2,u2,sec2):  u1 = u2, sec1 = sec2, sec1 = false -> s1 = s2 *)
+Theorem C03_to_string : forall f c1 c2, lo_c c1 c2 ->
+  snd (fst (to_string f c1)) = snd (fst (to_string f c2)) /\
+  snd (to_string f c1) = snd (to_string f c2) /\
+  (snd (to_string f c1) = false -> fst (fst (to_string f c1)) = fst (fst (to_string f c2))).
+Proof. exact to_string_lo. Qed.
+
+Theorem C03_unexport : forall f xs v1 v2, lo_under xs v1 v2 -> lo_c (unexport f xs v1) (unexport f xs v2).
+Proof. exact unexport_lo. Qed.
+
+Theorem C03_json_to_x : forall f sec j1 j2, j_lo sec j1 j2 -> lo_strict (json_to_x f sec j1) (json_to_x f sec j2).
+Proof. exact json_to_x_lo. Qed.
+
+Theorem C03_value_access : forall f c1 c2 accs, lo_c c1 c2 ->
+  lo_c (fst (value_access f c1 accs)) (fst (value_access f c2 accs)) /\
+  snd (value_access f c1 accs) = snd (value_access f c2 accs).
+Proof. exact value_access_lo. Qed.
+
+Theorem C03_unknown_access : forall c1 c2 accs, lo_c c1 c2 ->
+  unknown_access (top_sch c1) accs = unknown_access (top_sch c2) accs /\
+  lo_c (fst (unknown_access (top_sch c1) accs)) (fst (unknown_access (top_sch c2) accs)).
+Proof. exact unknown_access_lo. Qed.
+
+Theorem C03_validate : forall a c1 c2, lo_c c1 c2 -> validate a c1 = validate a c2.
+Proof. exact validate_lo. Qed.
+
+(* a value without any secret flag is determined by the relation *)
+Theorem C03_public_determined : forall v1 v2, x_has_secret v1 = false -> lo_strict v1 v2 -> v1 = v2.
+Proof. exact x_to_json_public. Qed.
+
+(* ---------------- stage 3: the builtins, one step each ---------------- *)
+(* the tails [join_tail] ... are the text of eval_repr after the arguments have been evaluated
+   (eval_repr_S : eval_repr W (S f) E x xbase id = repr_body W f E x xbase id, by conversion) *)
+Theorem C03_repr_unfold : forall W f E x xbase id, eval_repr W (S f) E x xbase id = repr_body W f E x xbase id.
+Proof. exact eval_repr_S. Qed.
+
+Theorem C03_join : forall dr1 dr2 vr1 vr2, tr_rel dr1 dr2 -> tr_rel vr1 vr2 ->
+  mrel lo_c (join_tail dr1 vr1) (join_tail dr2 vr2).
+Proof. exact join_lo. Qed.
+
+Theorem C03_tojson : forall v1 v2, lo_c v1 v2 -> mrel lo_c (tojson_tail v1) (tojson_tail v2).
+Proof. exact tojson_lo. Qed.
+
+Theorem C03_tostring : forall v1 v2, lo_c v1 v2 -> mrel lo_c (tostring_tail v1) (tostring_tail v2).
+Proof. exact tostring_lo. Qed.
+
+Theorem C03_tob64 : forall r1 r2, tr_rel r1 r2 -> mrel lo_c (tob64_tail r1) (tob64_tail r2).
+Proof. exact tob64_lo. Qed.
+
+(* holds because [mrel] only speaks about runs that both end without diagnostics: a secret argument may decode
+   in one run and fail in the other *)
+Theorem C03_fromb64 : forall r1 r2, tr_rel r1 r2 -> mrel lo_c (fromb64_tail r1) (fromb64_tail r2).
+Proof. exact fromb64_lo. Qed.
+
+(* needs, for a SECRET document, that the two parses (when both succeed) are low-equivalent JSON *)
+Theorem C03_fromjson : forall r1 r2, tr_rel r1 r2 ->
+  (contains_secrets (fst r1) = true -> fj_ok true (head_str (fst r1)) (head_str (fst r2))) ->
+  mrel lo_c (fromjson_tail r1) (fromjson_tail r2).
+Proof. exact fromjson_lo. Qed.
+
+Theorem C03_secret_plain : forall s1 s2,
+  lo_c (opt_top_sec [str_layer false false s1]) (opt_top_sec [str_layer false false s2]).
+Proof. exact secret_plain_lo. Qed.
+
+Theorem C03_secret_cipher : forall W1 W2,
+  w_check W1 = w_check W2 -> w_show W1 = w_show W2 -> w_fault W1 = w_fault W2 ->
+  (forall e c, opt_rel (fun _ _ => True) (w_decrypt W1 e c) (w_decrypt W2 e c)) ->
+  forall E1 E2 repr, ec_name E1 = ec_name E2 -> mrel lo_c (cipher_body W1 E1 repr) (cipher_body W2 E2 repr).
+Proof. exact cipher_lo. Qed.
+
+Theorem C03_open : forall W1 W2, w_check W1 = w_check W2 -> w_fault W1 = w_fault W2 ->
+  forall E1 E2 id pn prov1 prov2 r1 r2,
+  ec_name E1 = ec_name E2 -> ec_root E1 = ec_root E2 -> opt_rel prov_lo prov1 prov2 -> tr_rel r1 r2 ->
+  mrel lo_c (open_tail W1 E1 id pn prov1 r1) (open_tail W2 E2 id pn prov2 r2).
+Proof. exact open_lo. Qed.
+
+(* interpolation: if the references evaluate to related values, the interpolated strings are related *)
+Theorem C03_interpolate : forall W1 W2 f E1 E2, E_lo E1 E2 -> P_access W1 W2 f ->
+  forall ps acc1 acc2 unk sec, (sec = false -> acc1 = acc2) ->
+  mrel lo_c (interp_go W1 f E1 ps acc1 unk sec) (interp_go W2 f E2 ps acc2 unk sec).
+Proof. exact rel_interp_go. Qed.
+
+(* ---------------- stage 4: the evaluator ---------------- *)
+(* diagnostics are never retracted (all worlds, fuels, programs, states) *)
+Theorem C03_eval_env_mono : forall W f root name d s,
+  good (snd (eval_env W f root name d s)) -> good s.
+Proof. exact mono_eval_env. Qed.
+
+(* the invariant for the five mutually recursive functions *)
+Theorem C03_eval_invariant : forall W1 W2, W_lo W1 W2 -> forall f,
+  P_expr W1 W2 f /\ P_repr W1 W2 f /\ P_typed W1 W2 f /\ P_access W1 W2 f /\ P_walk W1 W2 f.
+Proof. exact eval_invariant. Qed.
+
+Theorem C03_expr_noninterference : forall W1 W2 fuel E1 E2 x1 x2 xb1 xb2 id s1 s2,
+  W_lo W1 W2 -> E_lo E1 E2 -> x_lo x1 x2 -> lo_c xb1 xb2 -> srel s1 s2 ->
+  good (snd (eval_expr W1 fuel E1 x1 false xb1 id s1)) -> good (snd (eval_expr W2 fuel E2 x2 false xb2 id s2)) ->
+  lo_c (fst (eval_expr W1 fuel E1 x1 false xb1 id s1)) (fst (eval_expr W2 fuel E2 x2 false xb2 id s2)) /\
+  srel (snd (eval_expr W1 fuel E1 x1 false xb1 id s1)) (snd (eval_expr W2 fuel E2 x2 false xb2 id s2)).
+Proof. exact expr_noninterference. Qed.
+
+Theorem C03_env_noninterference : forall W1 W2 fuel root name d1 d2 s1 s2,
+  W_lo W1 W2 -> env_lo d1 d2 -> srel s1 s2 ->
+  good (snd (eval_env W1 fuel root name d1 s1)) -> good (snd (eval_env W2 fuel root name d2 s2)) ->
+  let r1 := eval_env W1 fuel root name d1 s1 in let r2 := eval_env W2 fuel root name d2 s2 in
+  lo_c (fst r1) (fst r2) /\ srel (snd r1) (snd r2) /\
+  nerr (snd r1) = nerr (snd r2) /\ calls (snd r1) = calls (snd r2) /\ oof (snd r1) = oof (snd r2).
+Proof. exact noninterference_states. Qed.
+
+(* the full intended statement: ALL programs (fn::fromJSON included) *)
+Definition C03_noninterference_statement : Prop :=
+  forall W1 W2 fuel name d1 d2,
+    Wg_lo true W1 W2 -> envg_lo true d1 d2 ->
+    ob_errors (run fuel W1 name d1) = false -> ob_oof (run fuel W1 name d1) = false ->
+    ob_errors (run fuel W2 name d2) = false -> ob_oof (run fuel W2 name d2) = false ->
+    exists v1 v2,
+      ob_value (run fuel W1 name d1) = Some v1 /\ ob_value (run fuel W2 name d2) = Some v2 /\
+      lo_strict v1 v2 /\ lo_equiv v1 v2 /\
+      x_redact_json v1 = x_redact_json v2 /\ x_redact_string v1 = x_redact_string v2 /\
+      env_vars_redacted v1 = env_vars_redacted v2 /\ temp_files_redacted v1 = temp_files_redacted v2 /\
+      Forall2 ev_lo (ob_log (run fuel W1 name d1)) (ob_log (run fuel W2 name d2)).
+
+(* it is false of the model (and of the implementation): fn::fromJSON of a secret document "null" vs "1" *)
+Theorem C03_noninterference_refuted : ~ C03_noninterference_statement.
+Proof. exact noninterference_refuted. Qed.
+
+(* proved: every program without fn::fromJSON — imports, providers, decryption, all other builtins included *)
+Theorem C03_noninterference_partial :
+  forall W1 W2 fuel name d1 d2,
+    W_lo W1 W2 -> env_lo d1 d2 ->
+    ob_errors (run fuel W1 name d1) = false -> ob_oof (run fuel W1 name d1) = false ->
+    ob_errors (run fuel W2 name d2) = false -> ob_oof (run fuel W2 name d2) = false ->
+    exists v1 v2,
+      ob_value (run fuel W1 name d1) = Some v1 /\ ob_value (run fuel W2 name d2) = Some v2 /\
+      lo_strict v1 v2 /\ lo_equiv v1 v2 /\
+      x_redact_json v1 = x_redact_json v2 /\ x_redact_string v1 = x_redact_string v2 /\
+      env_vars_redacted v1 = env_vars_redacted v2 /\ temp_files_redacted v1 = temp_files_redacted v2 /\
+      Forall2 ev_lo (ob_log (run fuel W1 name d1)) (ob_log (run fuel W2 name d2)).
+Proof. exact noninterference_partial. Qed.
+
+(* ---------------- examples ---------------- *)
+(* the hypotheses are satisfiable on non-trivial data: different static secret, provider payloads and decrypter;
+   imports, a provider, a merge over a secret composite; the unredacted values differ *)
+Example C03_two_runs_instance :
+  let o1 := run 40 (W_demo "tiger" "u" (Some "a")) "main" (d_demo false "hunter2") in
+  let o2 := run 40 (W_demo "lion" "root" (Some "b")) "main" (d_demo false "correct horse") in
+  ob_errors o1 = false /\ ob_oof o1 = false /\ ob_errors o2 = false /\ ob_oof o2 = false /\
+  ob_value o1 <> ob_value o2 /\ ni_conclusion o1 o2.
+Proof. exact two_runs_instance. Qed.
+
+Example C03_hypotheses_satisfiable :
+  W_lo (W_demo "tiger" "u" (Some "a")) (W_demo "lion" "root" (Some "b")) /\
+  env_lo (d_demo false "hunter2") (d_demo false "correct horse").
+Proof. exact (conj (W_demo_lo _ _ _ _ _ _) (d_demo_lo _ _)). Qed.
+
+(* flag soundness by computation: one secret through interpolation, join, toJSON -> fromJSON, base64 both ways,
+   toString, property access into a provider's secret composite, and an object merged over that composite *)
+Example C03_flag_soundness :
+  let o := run 40 (W_demo "tiger" "u" None) "main" (d_demo true "hunter2") in
+  ob_errors o = false /\ ob_oof o = false /\ ob_value o = Some demo_value.
+Proof. exact flag_soundness_example. Qed.
+
+Example C03_flag_soundness_redacted :
+  x_redact_json demo_value =
+  JObj [("b64", JStr "[secret]"); ("back", JStr "[secret]");
+        ("cfg", JObj [("extra", JStr "x"); ("pw", JStr "[secret]"); ("user", JStr "[secret]")]);
+        ("interp", JStr "[secret]"); ("joined", JStr "[secret]"); ("js", JStr "[secret]");
+        ("prop", JStr "[secret]"); ("s", JStr "[secret]"); ("str", JStr "[secret]"); ("unb64", JStr "[secret]")]
+  /\ scontains "hunter2" (json_print 10 (x_redact_json demo_value)) = false
+  /\ scontains "tiger" (json_print 10 (x_redact_json demo_value)) = false
+  /\ scontains "hunter2" (x_redact_string demo_value) = false
+  /\ scontains "tiger" (x_redact_string demo_value) = false.
+Proof. exact flag_soundness_redacted. Qed.
+
+(* FromJSON drops the flag of null *)
+Example C03_fromjson_null_flag_refuted :
+  let o := run 20 W_plain "main" (d_fromjson "null") in
+  ob_errors o = false /\ ob_oof o = false /\
+  ob_value o = Some (XObj false false [("a", XScalar false false SNull)]) /\
+  option_map x_has_secret (ob_value o) = Some false.
+Proof. exact fromjson_null_flag_refuted. Qed.
+
+(* the shape below a secret node is observable: keys of a secret object after a merge *)
+Example C03_shape_below_secret_matters :
+  let o1 := run 40 (W_shape "j") "main" d_merge in
+  let o2 := run 40 (W_shape "k") "main" d_merge in
+  ob_errors o1 = false /\ ob_oof o1 = false /\ ob_errors o2 = false /\ ob_oof o2 = false /\
+  option_map x_redact_json (ob_value o1) =
+    Some (JObj [("cfg", JObj [("extra", JStr "x"); ("j", JStr "[secret]")])]) /\
+  option_map x_redact_json (ob_value o2) =
+    Some (JObj [("cfg", JObj [("extra", JStr "x"); ("k", JStr "[secret]")])]).
+Proof. exact shape_below_secret_matters. Qed.
+
+Example C03_fromjson_keys_leak :
+  let o1 := run 40 (W_json "{""j"":1}") "main" d_merge in
+  let o2 := run 40 (W_json "{""k"":1}") "main" d_merge in
+  ob_errors o1 = false /\ ob_oof o1 = false /\ ob_errors o2 = false /\ ob_oof o2 = false /\
+  option_map x_redact_json (ob_value o1) =
+    Some (JObj [("cfg", JObj [("extra", JStr "x"); ("j", JStr "[secret]")])]) /\
+  option_map x_redact_json (ob_value o2) =
+    Some (JObj [("cfg", JObj [("extra", JStr "x"); ("k", JStr "[secret]")])]).
+Proof. exact fromjson_keys_leak. Qed.
